@@ -19,6 +19,7 @@ from hypothesis import strategies as st
 
 from vk.core import exc_site
 from vk.engine import hyp_search, parallel
+from vk.vloop import run_case
 
 PROPERTY = "C40"
 LEVEL = "exploration"
@@ -543,12 +544,10 @@ def run_cover(ctx, h) -> Tracker:
             xknx.task_registry.stop()
             await asyncio.sleep(0)
 
-    loop = asyncio.new_event_loop()
-    try:
-        with _Patched(clock):
-            loop.run_until_complete(scenario())
-    finally:
-        loop.close()
+    # virtual-time loop: the Cover's timers (1 s periodic callback, auto-stop) never fire while the
+    # history is interpreted with sleep(0) steps - deterministic regardless of machine load
+    with _Patched(clock):
+        run_case(lambda _loop: scenario(), max_iters=200_000)
     return holder["tr"]
 
 
